@@ -173,15 +173,24 @@ func (w *World) judgeC09(o *parseOutcome) (map[string]string, string, c09Flags) 
 			i := earley.FirstNonViable(w.GE, ids)
 			fl.FirstBadIndex = i
 			want := i + 1
-			got := o.Rec.Errors[0].Tok.Seq
+			// Errors reach actions in reduction order (an inner production is
+			// reduced before the outer one that holds an earlier @error), so
+			// "first" is read in input order: the earliest Error delivered.
+			first := o.Rec.Errors[0]
+			for _, e := range o.Rec.Errors[1:] {
+				if e.Tok.Seq < first.Tok.Seq {
+					first = e
+				}
+			}
+			got := first.Tok.Seq
 			if got != want {
-				shape := "direct"
-				if o.Rec.RecoversAtFirstError >= 2 {
-					shape = "cascade"
+				shape := "later-token"
+				if got < want {
+					shape = "earlier-token"
 				}
 				return map[string]string{"class": "blame", "shape": shape},
-					fmt.Sprintf("first Error delivered carries token #%d (type %s) but the input stops being a prefix of any sentence at token #%d; recoveries entered before delivery: %d",
-						got, w.P.TokenToString(o.Rec.Errors[0].Tok.Type), want, o.Rec.RecoversAtFirstError), fl
+					fmt.Sprintf("the earliest Error delivered carries token #%d (type %s) but the input stops being a prefix of any sentence at token #%d; %d Error(s) delivered, recoveries entered before the first delivery: %d",
+						got, w.P.TokenToString(first.Tok.Type), want, len(o.Rec.Errors), o.Rec.RecoversAtFirstError), fl
 			}
 		}
 	}
